@@ -451,6 +451,38 @@ theorem invE_evEnd (g : Cfg) (s : S) (hi : InvE g s) : InvE g (evEnd g s) := by
       · exact invE_of_closed (by simp [flipWE, flip, stopTimer])
     · exact h1
 
+theorem invE_evConnEnd (g : Cfg) (s : S) (hi : InvE g s) : InvE g (evConnEnd g s) := by
+  unfold evConnEnd
+  split
+  · exact hi
+  · split
+    · have hw := W_cResetRead g { s with connecting := false, connEv := false }
+      simp only [W, Prod.mk.injEq] at hw
+      obtain ⟨w1, w2, w3, w4, w5, w6, w7, w8⟩ := hw
+      constructor
+      · rw [w6, w2, w3, w5, w1, w4]; exact hi.et
+      · intro _ _ hcn _
+        rw [w7] at hcn; simp at hcn
+    · exact hi
+
+theorem invE_evRearm (g : Cfg) (s : S) (hi : InvE g s) : InvE g (evRearm g s) := by
+  unfold evRearm
+  split
+  · exact hi
+  · split
+    · exact (hi.of_W (t := { s with rearm := false }) rfl).of_W (W_resetPollerEvent g _)
+    · exact hi
+
+theorem invE_evErrClose (g : Cfg) (s : S) (hi : InvE g s) : InvE g (evErrClose s) := by
+  unfold evErrClose
+  split
+  · exact hi
+  · split
+    · split
+      · exact hi.of_W rfl
+      · exact invE_of_closed (by simp [flipWE, flip, stopTimer])
+    · exact hi
+
 theorem invE_evTake (g : Cfg) (s : S) (o0 i e : Bool) (ks : List KAns) (hd : InvD g s) (hi : InvE g s) :
     InvE g (evTakeOp g s o0 i e ks) := by
   unfold evTakeOp
@@ -633,6 +665,9 @@ theorem invE_step (g : Cfg) (s : S) (op : Op) (hd : InvD g s) (hi : InvE g s) : 
         rw [e1]; exact this.2
   | evTake o0 i e ks => exact invE_evTake g s o0 i e ks hd hi
   | evEnd => exact invE_evEnd g s hi
+  | evConnEnd => exact invE_evConnEnd g s hi
+  | evRearm => exact invE_evRearm g s hi
+  | evErrClose => exact invE_evErrClose g s hi
   | flipClosed =>
     show InvE g (flipClosed s)
     unfold flipClosed
